@@ -2720,12 +2720,14 @@ class RedunBackendDb(RedunBackend):
         """
         assert self.session
 
-        # Gather all valid handles of the same name and their children ids
+        # Gather all handles of the same name and their children ids
         # in order or perform the recursive search more efficiently in python.
+        # Edges leaving an invalid handle are needed too: `advance_handle` can make a handle valid
+        # again while one of its ancestors stays invalid, so the walk must not stop there.
         handles_same_name = (
             self.session.query(Handle.hash, HandleEdge.child_id)
             .join(HandleEdge, HandleEdge.parent_id == Handle.hash)
-            .filter(Handle.fullname == handle.__handle__.fullname, Handle.is_valid.is_(True))
+            .filter(Handle.fullname == handle.__handle__.fullname)
             .all()
         )
 
